@@ -241,6 +241,10 @@ func TestVerifC18(t *testing.T) {
 	c18CliRun(v, dir, st)
 	c18CliRunJSONConcurrent(v, dir)
 	c18CliRunSlowOutput(v, dir)
+	c18CliDirWriterConcurrent(v, dir, v.Pick(4, 20))
+	// `twins run` ends the process (log.Fatalf) when a worker's write fails; keep what was observed so far
+	v.Close("cli: `twins generate` / `twins run` invocations per (settings, views, shuffle, --scenarios, input); non-trivial = at least 2 options and 2 views")
+	c18CliRunDirConcurrent(v, dir)
 	v.Close("cli: `twins generate` / `twins run` invocations per (settings, views, shuffle, --scenarios, input); non-trivial = at least 2 options and 2 views")
 }
 
@@ -679,6 +683,188 @@ func c18CliRunSlowOutput(v *verifOut, dir string) {
 				fmt.Sprintf("`twins run --log-all` with %d workers and a slow output: %d scenarios executed, %d logged, %d of them twice or never executed, %d missing %s", w, announced, cnt, twice, missing, readErr), meta)
 		}
 	}
+}
+
+// c18CliCheckDir reads every file of a directory written by the dirWriter back through twins.FromJSON and
+// compares with the scenarios that were accepted (WriteScenario returned nil).
+func c18CliCheckDir(v *verifOut, d string, accepted []twins.Scenario, perFile uint64, settings twins.Settings, meta map[string]any) {
+	entries, err := os.ReadDir(d)
+	if err != nil {
+		v.Oracle(false, "cli.dir:unreadable-output", "the output directory cannot be read: "+err.Error(), meta)
+		return
+	}
+	have := map[string]int{}
+	total, okRead, okSize, okSettings := 0, true, true, true
+	readErr := ""
+	for _, e := range entries {
+		f, err := os.Open(filepath.Join(d, e.Name()))
+		if err != nil {
+			okRead, readErr = false, err.Error()
+			continue
+		}
+		src, err := twins.FromJSON(f)
+		_ = f.Close()
+		if err != nil {
+			okRead, readErr = false, e.Name()+": "+err.Error()
+			continue
+		}
+		if src.Settings() != settings {
+			okSettings = false
+		}
+		cnt := src.Remaining()
+		if uint64(cnt) > perFile {
+			okSize = false
+		}
+		for i := int64(0); i < cnt; i++ {
+			sc, err := src.NextScenario()
+			if err != nil {
+				okRead, readErr = false, e.Name()+": "+err.Error()
+				break
+			}
+			total++
+			have[c18CliScenKey(sc)]++
+		}
+	}
+	want := map[string]int{}
+	for _, sc := range accepted {
+		want[c18CliScenKey(sc)]++
+	}
+	twice, missing := 0, 0
+	for k, x := range have {
+		if x > want[k] {
+			twice += x - want[k]
+		}
+	}
+	for k, x := range want {
+		if have[k] < x {
+			missing += x - have[k]
+		}
+	}
+	meta["files"], meta["accepted"], meta["read_back"], meta["twice_or_foreign"], meta["missing"], meta["read_error"] = len(entries), len(accepted), total, twice, missing, readErr
+	v.Oracle(okRead, "cli.dir:unreadable-file", "a file written by the directory writer cannot be read back: "+readErr, meta)
+	v.Oracle(okSettings, "cli.dir:settings-changed", "a file of the directory writer carries other settings", meta)
+	v.Oracle(okSize, "cli.dir:file-too-large", "a file holds more than scenarios-per-file scenarios", meta)
+	v.Oracle(twice == 0 && missing == 0 && total == len(accepted), "cli.dir:files-differ-from-accepted-scenarios",
+		fmt.Sprintf("directory writer: %d scenarios accepted (WriteScenario returned nil), %d found in the %d files, %d of them twice or never written, %d missing", len(accepted), total, len(entries), twice, missing), meta)
+}
+
+func c18CliScenarios(nn, nt, p, views uint8) ([]twins.Scenario, twins.Settings) {
+	settings := twins.Settings{NumNodes: nn, NumTwins: nt, Partitions: p, Views: views, Ticks: 2}
+	g := twins.NewGenerator(c18CliNop{}, settings)
+	var scens []twins.Scenario
+	for {
+		s, err := g.NextScenario()
+		if err != nil {
+			break
+		}
+		scens = append(scens, s)
+	}
+	return scens, settings
+}
+
+// Several workers push distinct scenarios through one real dirWriter (`--output <dir> --scenarios-per-file N`).
+func c18CliDirWriterConcurrent(v *verifOut, dir string, rounds int) {
+	run := 0
+	for _, c := range [][4]uint8{{4, 1, 2, 2}, {3, 0, 2, 3}} { // 324 and 216 distinct scenarios
+		scens, settings := c18CliScenarios(c[0], c[1], c[2], c[3])
+		for _, perFile := range []uint64{1, 2, 5} {
+			for _, w := range []int{2, 8} {
+				failed := false
+				for r := 0; r < rounds && !failed; r++ {
+					run++
+					d := filepath.Join(dir, fmt.Sprintf("dirw-%d", run))
+					if err := os.MkdirAll(d, 0o755); err != nil {
+						return
+					}
+					numScenariosPerFile = perFile
+					dw := &dirWriter{settings: settings, dir: d}
+					var mu sync.Mutex
+					var accepted []twins.Scenario
+					var errs []string
+					var wg sync.WaitGroup
+					start := make(chan struct{})
+					for i := 0; i < w; i++ {
+						wg.Add(1)
+						go func(i int) {
+							defer wg.Done()
+							defer func() {
+								if rec := recover(); rec != nil {
+									mu.Lock()
+									errs = append(errs, fmt.Sprint("panic: ", rec))
+									mu.Unlock()
+								}
+							}()
+							<-start
+							var mine []twins.Scenario
+							var myErrs []string
+							for j := i; j < len(scens); j += w {
+								if err := dw.WriteScenario(scens[j]); err != nil {
+									myErrs = append(myErrs, err.Error())
+								} else {
+									mine = append(mine, scens[j])
+								}
+							}
+							mu.Lock()
+							accepted = append(accepted, mine...)
+							errs = append(errs, myErrs...)
+							mu.Unlock()
+						}(i)
+					}
+					close(start)
+					wg.Wait()
+					cerr := dw.Close()
+					numScenariosPerFile = 0
+					meta := map[string]any{"mode": "dirWriter", "goroutines": w, "scenarios_per_file": perFile, "scenarios": len(scens), "round": r,
+						"num_nodes": c[0], "num_twins": c[1], "partitions": c[2], "views": c[3]}
+					v.Count("cli_dirwriter_concurrent")
+					v.Seen(fmt.Sprintf("dirw %v %d %d %d", c, perFile, w, r), true, meta)
+					if len(errs) > 0 || cerr != nil {
+						meta["errors"] = fmt.Sprint(errs, cerr)
+						v.Oracle(false, "cli.dir:write-error", fmt.Sprintf("dirWriter.WriteScenario/Close fail with %d concurrent workers: %v %v", w, errs, cerr), meta)
+						failed = true
+					}
+					before := len(v.fails)
+					c18CliCheckDir(v, d, accepted, perFile, settings, meta)
+					failed = failed || len(v.fails) > before
+					_ = os.RemoveAll(d)
+				}
+			}
+		}
+	}
+}
+
+// `twins run --concurrency N --log-all --output <dir> --scenarios-per-file 2`
+func c18CliRunDirConcurrent(v *verifOut, dir string) {
+	for ci, c := range [][4]uint8{{3, 0, 2, 3}, {4, 0, 1, 3}} {
+		scens, settings := c18CliScenarios(c[0], c[1], c[2], c[3])
+		for _, w := range []uint{3, 8} {
+			d := filepath.Join(dir, fmt.Sprintf("rundir-%d-%d", ci, w))
+			numReplicas, numTwins, numPartitions, numViews = c[0], c[1], c[2], c[3]
+			numScenarios, numScenariosPerFile, numTicks = 0, 2, 2
+			shuffle, randSeed, twinsDest, twinsSrc = false, 0, d, ""
+			twinsConsensus, logAll, concurrency = "chainedhotstuff", true, w
+			msg := c18CliQuiet(twinsRun)
+			numScenarios, numScenariosPerFile, logAll, concurrency = 0, 0, false, 1
+			meta := map[string]any{"mode": "run --log-all --output <dir> --scenarios-per-file 2", "concurrency": w, "announced": len(scens),
+				"num_nodes": c[0], "num_twins": c[1], "partitions": c[2], "views": c[3]}
+			v.Count("cli_run_dir_concurrent")
+			v.Seen(fmt.Sprintf("cli rundir %d %d", ci, w), true, meta)
+			if msg != "" {
+				meta["panic"] = msg
+				v.Oracle(false, "cli.run:panic", "`twins run --output <dir>` panics", meta)
+				continue
+			}
+			c18CliCheckDir(v, d, scens, 2, settings, meta)
+		}
+	}
+}
+
+// TestVerifC18Race: the directory writer under concurrent workers alone; the thorough tier runs it under -race.
+func TestVerifC18Race(t *testing.T) {
+	v := verifNew("C18")
+	v.prop = "C18race"
+	c18CliDirWriterConcurrent(v, t.TempDir(), 3)
+	v.Close("directory writer with concurrent workers under the race detector")
 }
 
 func c18CliScenKey(s twins.Scenario) string {
